@@ -3,6 +3,8 @@
 import json
 props=[json.loads(l) for l in open('/verif/properties.jsonl')]
 CLAIMED = {
+ 'C11': ("operand kernels (8/16-bit emit/read, placeholder patching, constant addressing) decided for every non-negative integer: round trip or refusal exactly beyond the width; an independent verifier (complete decode, operand kinds and ranges, argc = arity, call convention = callee laziness, forward in-range jump targets on instruction boundaries, path-independent non-negative stack depth, 1 at return, recursively for deferred-argument bodies) accepts the bytecode of 99 template programs and of wide/deep programs around the 42-slot, 255 and 65535 boundaries",
+         "programs from the template families only; widths 41-543 in the quick tier, up to 65536 in the thorough tier; 'at most one step per instruction' follows from forward-only jumps and is not measured"),
  'C05': ("an independent reference checker (the rules of the statement) agrees with types.Check on acceptance and inferred type for 62 one-step programs (every node kind, well and ill typed) over the type catalogue, children of equal types with permuted fields, and four registration orders of extra mono/poly overloads",
          "one node over identifier children (compositionality assumed for nesting); ⊥-typed arguments against non-variable positions not dictated; catalogue TC1/TC2"),
  'C06': ("25 programs with effect-recording and failing host functions in every operand position of if / ?: / && / || / a user lazy function / nested lazy calls / strict calls, method calls, literals, subscripts and dynamic calls: on every back end the recorded invocation sequence equals the dictated one for both values of every condition; guarded partial operations never fail for any operand",
